@@ -103,7 +103,7 @@ P = {
  "C20": dict(
   technique="property-based testing (proptest): clip-to-interval predicate for winsorize, rank+Pearson model and monotone-map metamorphic relation for Spearman, bracket model and termination for half_life",
   text="winsorize checked against independently computed bounds (nulls kept, inside values bit-identical, others on the nearer bound, order preserved); Spearman vs Pearson of average ranks and invariance under exact increasing maps; half_life must return in range without panic and equal the first lag with autocorrelation <= 0.5 for well-shaped series.",
-  note="Overflow checks on, so a wrapped bracket panics instead of looping; watchdog as backstop. Spearman is also evaluated on Option<i64> series shifted beyond 2^53 (order-only invariance). Sub half_life:small_integer_scope enumerates every series of length 7 over {0..6} (thorough: also lengths 6, 8, 9): an autocorrelation within 1e-9 of 0.5 is decided by the library's own Pearson correlation of the series with its lagged copy.",
+  note="Sub winsorize:level runs the sigma method on small integer offsets at a level of 1e6 / 4e6 (band rel*k*sd + 64 u n max|x|; generic clauses only where rel >= 0.5). Overflow checks on, so a wrapped bracket panics instead of looping; watchdog as backstop. Spearman is also evaluated on Option<i64> series shifted beyond 2^53 (order-only invariance). Sub half_life:small_integer_scope enumerates every series of length 7 over {0..6} (thorough: also lengths 6, 8, 9): an autocorrelation within 1e-9 of 0.5 is decided by the library's own Pearson correlation of the series with its lagged copy.",
   ref="6 C20"),
 }
 
